@@ -10,6 +10,7 @@ func (c *Ctx) Run(job, tier string) {
 	switch job {
 	case "iso":
 		c.RunIso()
+		c.RunCfgSeq()
 	case "race":
 		c.RunRace(tier)
 	default:
@@ -42,6 +43,8 @@ func (c *Ctx) Replay(job, wit string, capS int) error {
 			return nil
 		}
 		c.checkIso(base, sc.Iso.Mut, sc.Iso.Point)
+	case sc.Mode == "cfgseq":
+		c.cfgSeq(sc.Jobs[0])
 	case sc.Mode == "race":
 		// a race is a property of sampled schedules: replaying re-runs the pass for this job set
 		c.raceOne(sc.Jobs, 20)
